@@ -56,6 +56,10 @@ SCRIPTS['m'] = ('(declare-datatype Color ((red) (green) (blue) (black) '
 SCRIPTS['n'] = ('(set-logic QF_LIA)(declare-const |x| Int)'
                 '(assert (! (> |x| 0) :named a1))(check-sat)')
 
+# a stray closing parenthesis (skipped by the parser)
+SCRIPTS['p'] = ('(declare-const x Int))(assert (> x 1))(assert (< x 5))'
+                '(check-sat)')
+
 MUTSETS = {
     'consts': ['Constants'],
     'late': ['SimplifySymbolNames', 'ReplaceByVariable'],
@@ -125,6 +129,7 @@ KEYS = {
     'k': ['x', '12', '17', '21', '>', '+'],
     'm': ['c', 'd', 'mix', 'distinct', '=', 'check-sat'],
     'n': ['|x|', '!', ':named', 'a1', '>', 'set-logic'],
+    'p': ['x', '>', '<', '1', '5', 'check-sat'],
 }
 
 
